@@ -57,18 +57,50 @@ int main_replay(){
   return 0;
 }
 '''
-def replay_search(prop):
+REPLAY_CONST = r'''
+/* F18 on the real code: linear gradient fields g(x) = L x in 1 and 2 dimensions; every iterate and residual is an exact binary fraction, so the
+ * first step whose residual is <= the tolerance is known without rounding; tolerances equal to a residual of the sequence are included. */
+int main_replay(){
+  int bad = 0;
+  for (int nd = 1; nd <= 2; nd++) for (double step : {0.5, 0.25}) for (double tol : {0.0, 0.125, 0.25, 0.3, 0.5, 1.0, 4.0}) for (int cap : {-1, 0, 1, 2, 3, 6}) {
+    std::vector<double> x(nd, 0.0); x[0] = 1.0;               /* residual = |x[0]|: 1, then (1 - step), (1 - step)^2, ... */
+    auto grad = [&](const std::vector<double> &z, std::vector<double> &g)->void{ for (int j = 0; j < nd; j++) g[j] = z[j]; };
+    int expect = 0; double r = 1.0;                           /* reference: steps until the residual after a step is <= tol, at most cap */
+    { bool first = true; while ((first || r > tol) && expect < cap) { first = false; r *= (1.0 - step); expect++; } }
+    /* the loop tests the residual before the first step too, with the initial value tolerance + 1 (always above the tolerance) */
+    TasOptimization::OptimizationStatus st = TasOptimization::GradientDescent(grad, step, cap, tol, x);
+    if (st.performed_iterations != expect || (expect > 0 && x[0] != r)) {
+      if (bad < 6) std::printf("dims %d stepsize %g tolerance %g cap %d: %d steps performed, expected %d (state %.17g, expected %.17g)\n", nd, step, tol, cap, st.performed_iterations, expect, x[0], r);
+      bad++;
+    }
+  }
+  __CPROVER_assert(bad == 0, "F18 the constant-step variant performs exactly min(max_iterations, first step reaching the tolerance) steps");
+  return 0;
+}
+'''
+def replay_const(prop):
+    def rp(job, ob, vals, wd):
+        hdr = "Replay against the real code (fixed scenarios with exact arithmetic).\nproperty %s job %s\nobligation %s: %s\nat %s" % (prop, job.name, ob["name"], ob["description"], ob["location"])
+        return RP.write_and_run(prop, job.name + "." + ob["name"], hdr, ['"TasmanianOptimization.hpp"'], REPLAY_CONST, "  main_replay();", lib="dream")
+    return rp
+
+def replay_search(prop, suffix=""):
     def rp(job, ob, vals, wd):
         hdr = "Replay by search against the real code.\nproperty %s job %s\nobligation %s: %s\nat %s" % (prop, job.name, ob["name"], ob["description"], ob["location"])
-        return RP.write_and_run(prop, job.name + "." + ob["name"], hdr, ['"TasmanianOptimization.hpp"'], SEARCH, "  main_replay();", lib="dream")
+        return RP.write_and_run(prop, job.name + "." + ob["name"] + suffix, hdr, ['"TasmanianOptimization.hpp"'], SEARCH, "  main_replay();", lib="dream")
     return rp
 
 def replay_any(prop):
-    a, s = replay_adaptive(prop), replay_search(prop)
+    a, s, s2 = replay_adaptive(prop), replay_search(prop), replay_search(prop, ".search")
     def rp(job, ob, vals, wd):
         if "tsg_rhs_term" in ob["name"] or "tsg_step" in ob["name"]:
             return s(job, ob, vals, wd)
-        return a(job, ob, vals, wd)
+        r = a(job, ob, vals, wd)
+        if r[1]:
+            return r
+        # the descent test is abstract in the proof, so the scripted callback values may not drive the real code down the same path: fall back to the search
+        r2 = s2(job, ob, vals, wd)
+        return r2 if r2[1] else r
     return rp
 
 def _arr(vals, name, n, m=None):
@@ -135,7 +167,7 @@ def jobs(tier, seed, prop):
     t2 = t2.replace("sqrt(status.residual)", "tsg_sqrt_log(status.residual)")
     out.append(Job("graddesc.const", pre + '#line 1 "/verif/contracts/graddesc.c"\n' + cf.text(("text",)) + t2 + cf.text(("harness",), ["h_GradientDescent_const"]),
                    "h_GradientDescent_const", unwind=nit + 2, timeout=600, backends=[["--refine-arithmetic"], []],
-                   functions=["%s:%d %s" % (f["file"], f["line"], f["name"]) for f in info2["functions"]], info=info2,
+                   functions=["%s:%d %s" % (f["file"], f["line"], f["name"]) for f in info2["functions"]], info=info2, replay=replay_const(prop),
                    bounded="dimensions <= %d, max_iterations <= %d (full unwinding with unwinding assertions)" % (ndim, nit),
                    assumed=["gradient callback returns arbitrary doubles", "sqrt returns any value (logged stub)"],
                    label="GradientDescent (constant step) extracted body against F18"))
